@@ -102,6 +102,34 @@ SDLS = [
     type Events { tick: Int }
     """,
 ]
+# bundles 5 and 6: BYTE-IDENTICAL SDL under two schema names (two tenants of one service), with type extensions that
+# carry a directive / add an interface / add a value -- whatever cooking one of them does to its parsed SDL is its own
+TWIN_SDL = """
+    directive @tweak(by: String = "t") on FIELD_DEFINITION
+    directive @same on FIELD_DEFINITION | FIELD
+    directive @stamp on INPUT_FIELD_DEFINITION
+    directive @mark on OBJECT | INTERFACE | UNION | ENUM | INPUT_OBJECT | SCALAR
+    directive @req(label: String) on FIELD
+    enum Kind { B C }
+    input Box { label: String @stamp n: Int = 5 }
+    scalar Tag
+    type Cat { name: String meow: Int }
+    type Dog { name: String bark: Int }
+    union Pet = Cat | Dog
+    interface Named { name: String }
+    type Rock implements Named { name: String }
+    type Query { pet: Pet pets: [Pet] tag: Tag @tweak hello(n: Int = 6): String @same named: Named echo(t: Tag): String open(box: Box): String need(id: Int): String kind(k: Kind): String }
+    type Subscription { tick: Int }
+    extend type Cat @mark
+    extend type Dog implements Named @mark
+    extend interface Named @mark
+    extend union Pet @mark
+    extend enum Kind @mark { D }
+    extend input Box @mark
+    extend scalar Tag @mark
+    """
+SDLS.append(TWIN_SDL)
+SDLS.append(TWIN_SDL)
 ROOTS = {4: ("RootQuery", "Events")}
 
 REQUESTS = [
@@ -156,7 +184,7 @@ def register(i):
 
     @Resolver(QN + ".named", schema_name=sn)
     async def named(p, a, c, info):
-        return {"_typename": ["Robot", "Cat", "Rock", "Rock", "Rock"][i], "name": "n%d" % i}
+        return {"_typename": ["Robot", "Cat", "Rock", "Rock", "Rock", "Dog", "Dog"][i], "name": "n%d" % i}
 
     if i == 1:
         @TypeResolver("Pet", schema_name=sn)
